@@ -451,29 +451,6 @@ pub fn generate(seed: u64, tier: Tier) -> Case {
                             p.modules[k].order.push(Decl::Impl(idx));
                         }
                     }
-                    // An impl block for a type that lives in another module (pyxis ignores it
-                    // today; whatever it does with it, the type's own module must not change).
-                    if rng.chance(1, 2) {
-                        let types: Vec<usize> = targets
-                            .iter()
-                            .copied()
-                            .filter(|t| matches!(p.items[*t].kind, ItemKind::Type { .. }))
-                            .collect();
-                        if !types.is_empty() {
-                            let t = *rng.pick(&types);
-                            let tm = p.items[t].module;
-                            let name = p.items[t].name.clone();
-                            let import = if rng.chance(1, 2) {
-                                format!("use {}::{};", p.modules[tm].item_path(), name)
-                            } else {
-                                format!("use {};", p.modules[tm].item_path())
-                            };
-                            p.modules[k].extra_uses.push(import);
-                            p.modules[k].trailer.push_str(&format!(
-                                "impl {name} {{\n    #[address(0x7700)]\n    pub fn added_by_client_{k}(&self, x: u32) -> u32;\n}}\n"
-                            ));
-                        }
-                    }
                     notes.push("edit:add_module_that_uses_observed_items".to_string());
                 }
             }
